@@ -345,7 +345,7 @@ func (r *roundRobinHostPolicy) Init(*Session)                       {}
 
 func (r *roundRobinHostPolicy) Pick(qry ExecutableQuery) NextHost {
 	nextStartOffset := atomic.AddUint64(&r.lastUsedHostIdx, 1)
-	return roundRobbin(int(nextStartOffset), r.hosts.get())
+	return roundRobbin(nextStartOffset, r.hosts.get())
 }
 
 func (r *roundRobinHostPolicy) AddHost(host *HostInfo) {
@@ -886,7 +886,7 @@ func (d *dcAwareRR) HostDown(host *HostInfo) { d.RemoveHost(host) }
 //
 // For tiered and DC-aware strategy:
 // roundRobbin(offset, localHosts, remoteHosts)
-func roundRobbin(shift int, hosts ...[]*HostInfo) NextHost {
+func roundRobbin(shift uint64, hosts ...[]*HostInfo) NextHost {
 	currentLayer := 0
 	currentlyObserved := 0
 
@@ -909,7 +909,11 @@ func roundRobbin(shift int, hosts ...[]*HostInfo) NextHost {
 					break
 				}
 
-				h := hosts[currentLayer][(shift+currentlyObserved)%currentLayerSize]
+				// the counter behind shift never stops growing: converted to int it turns
+				// negative after 2^31 picks where int has 32 bits (2^63 elsewhere)
+				// (and the sum must not wrap either, or one walk would repeat hosts)
+				size := uint64(currentLayerSize)
+				h := hosts[currentLayer][(shift%size+uint64(currentlyObserved))%size]
 
 				if h.IsUp() {
 					return (*selectedHost)(h)
@@ -922,7 +926,7 @@ func roundRobbin(shift int, hosts ...[]*HostInfo) NextHost {
 
 func (d *dcAwareRR) Pick(q ExecutableQuery) NextHost {
 	nextStartOffset := atomic.AddUint64(&d.lastUsedHostIdx, 1)
-	return roundRobbin(int(nextStartOffset), d.localHosts.get(), d.remoteHosts.get())
+	return roundRobbin(nextStartOffset, d.localHosts.get(), d.remoteHosts.get())
 }
 
 // RackAwareRoundRobinPolicy is a host selection policies which will prioritize and
@@ -984,7 +988,7 @@ func (d *rackAwareRR) HostDown(host *HostInfo) { d.RemoveHost(host) }
 
 func (d *rackAwareRR) Pick(q ExecutableQuery) NextHost {
 	nextStartOffset := atomic.AddUint64(&d.lastUsedHostIdx, 1)
-	return roundRobbin(int(nextStartOffset), d.hosts[0].get(), d.hosts[1].get(), d.hosts[2].get())
+	return roundRobbin(nextStartOffset, d.hosts[0].get(), d.hosts[1].get(), d.hosts[2].get())
 }
 
 // ReadyPolicy defines a policy for when a HostSelectionPolicy can be used. After
